@@ -8,4 +8,6 @@ func Register(m map[string]func(*Ctx)) {
 	m["C03"] = RunC03
 	m["C11"] = RunC11
 	m["C07"] = RunC07
+	m["C09"] = RunC09
+	m["C12"] = RunC12
 }
